@@ -88,8 +88,9 @@ def run_c05(res, rng):
     cases += D.alias_cases(rng.fork('alias'), 'alias', 150 if res.tier == 'quick' else 6000)
     cases += D.many_endpoint_cases(rng.fork('many'), 'many', res.tier == 'thorough')
     cases += D.slow_and_busy_cases(rng.fork('slow'), 'sb', res.tier == 'thorough')
+    cases += D.pigeonhole_cases(rng.fork('ph'), 'ph', res.tier == 'thorough')
     correspondence(res, cases, proj_nk, D.judge_ref, 'reassembly under interleaving')
-    res.cov['rule'] = 'histories = random merges of 1-4 (quick) / 1-8 (thorough) endpoint streams (some sharing a device id), each a sequence of well-formed chains (2-6 segments, sizes 0..77, start counters incl. 65534/65535/0, 1/3 of the segments followed by trailing bytes, later segments with different header fields) and unsegmented frames; plus 20 chains of 6-40 segments across the wrap; chains whose total payload is 65519/65520/65535/65536/70000/72000/131070 bytes (few large or 47 MTU-sized segments); pairs of endpoints that collide under xor/or/add/truncation foldings of (device, stream) with chains in flight at the same time; 255..513 (thorough: 4097) endpoints with a reassembly pending simultaneously. non-trivial = distinct frames >= 24 bytes'
+    res.cov['rule'] = 'histories = random merges of 1-4 (quick) / 1-8 (thorough) endpoint streams (some sharing a device id), each a sequence of well-formed chains (2-6 segments, sizes 0..77, start counters incl. 65534/65535/0, 1/3 of the segments followed by trailing bytes, later segments with different header fields) and unsegmented frames; plus 20 chains of 6-40 segments across the wrap; chains whose total payload is 65519/65520/65535/65536/70000/72000/131070 bytes (few large or 47 MTU-sized segments); pairs of endpoints that collide under xor/or/add/truncation foldings of (device, stream) with chains in flight at the same time; 255..513 (thorough: 4097) endpoints with a reassembly pending simultaneously; pigeonhole histories: 800-1024 (thorough: up to 70000) endpoints pending at once (birthday-sized for side structures of up to 2^16 slots) (dense device x stream block, random, one stream x consecutive devices), half completed or aborted, every survivor then aborted + stray continuation or completed. non-trivial = distinct frames >= 24 bytes'
     res.cov['distinct_nontrivial'] = nontrivial_frames(cases)
     res.cov['input_distribution'] = frame_stats(cases)
     res.cov['samples'] = [sample_case(c) for c in cases[:2]]
@@ -104,13 +105,13 @@ def run_c06(res, rng):
     # the same with an unfaulted stream of a second (colliding-looking) endpoint interleaved through faults and recovery
     cases += [D.gen_c06(rng.fork('m%d' % i), 'm%d' % i, second_endpoint=True) for i in range(300 if res.tier == 'quick' else 20000)]
     # recovery must not depend on how much other traffic or wall-clock time lies between the segments of a message
-    busy = D.slow_and_busy_cases(rng.fork('slow'), 'sb', res.tier == 'thorough')
+    busy = D.slow_and_busy_cases(rng.fork('slow'), 'sb', res.tier == 'thorough') + D.pigeonhole_cases(rng.fork('ph'), 'ph', res.tier == 'thorough', sizes=None if res.tier == 'thorough' else [('dense', 1024)])
     for c in busy:
         c.meta.update(sent=[], faulty=[], rec=[], nrec=0)
     busy_ids = set(c.cid for c in busy)
     cases += busy
     correspondence(res, cases, proj_nk, lambda c, lines: D.judge_ref(c, lines) if c.cid in busy_ids else D.judge_c06(c, lines), 'faults never corrupt')
-    res.cov['rule'] = 'spec-built streams of 2-8 messages (half segmented into 2-5 frames) with consecutive counters; 1-3 random faults from {drop, duplicate, swap, corrupt version, corrupt message type}, plus one fault at each of 12 positions of 40 (quick) / 400 (thorough) streams; then two fresh complete messages for the recovery clause; 300 (quick) / 20000 (thorough) histories additionally interleave an unfaulted stream of a second endpoint chosen to collide with the first under xor/or/add/truncation foldings of (device, stream). non-trivial = distinct fault histories'
+    res.cov['rule'] = 'spec-built streams of 2-8 messages (half segmented into 2-5 frames) with consecutive counters; 1-3 random faults from {drop, duplicate, swap, corrupt version, corrupt message type}, plus one fault at each of 12 positions of 40 (quick) / 400 (thorough) streams; then two fresh complete messages for the recovery clause; 300 (quick) / 20000 (thorough) histories additionally interleave an unfaulted stream of a second endpoint chosen to collide with the first under xor/or/add/truncation foldings of (device, stream); a dense block of 1024 endpoints (4 consecutive device ids x all stream ids) pending at once, half aborted / completed, the rest completed or aborted + stray continuation (reference decoder as judge). non-trivial = distinct fault histories'
     res.cov['distinct_nontrivial'] = len(set(tuple(c.lines) for c in cases))
     res.cov['input_distribution'] = frame_stats(cases)
     res.cov['samples'] = [sample_case(c) for c in cases[:2]]
@@ -124,6 +125,9 @@ def run_c17(res, rng):
     cases += D.big_chain_cases(rng.fork('big'), 'big', res.tier == 'thorough')
     cases += D.alias_cases(rng.fork('alias'), 'alias', 100 if res.tier == 'quick' else 4000)
     cases += D.many_endpoint_cases(rng.fork('many'), 'many', res.tier == 'thorough')
+    cases += D.pigeonhole_cases(rng.fork('ph'), 'ph', res.tier == 'thorough', sizes=None if res.tier == 'thorough' else [('dense', 1024), ('random', 1000)])
+    if res.tier == 'thorough':
+        cases += D.wrap_count_cases(rng.fork('wrap'), 'wc', False)
     def judge(c, lines):
         return D.judge_ref(c, lines, check_pending=True)
     correspondence(res, cases, proj_pending, judge, 'pending reassembly state')
@@ -137,8 +141,9 @@ def run_c18(res, rng):
     cases = corpus_cases('C18') + [D.gen_c18(rng.fork('i%d' % i), 'i%d' % i) for i in range(n)]
     cases += [D.with_projections(c) for c in D.alias_cases(rng.fork('alias'), 'alias', 150 if res.tier == 'quick' else 6000)]
     cases += [D.with_projections(c) for c in D.many_endpoint_cases(rng.fork('many'), 'many', False)[:3]]
+    cases += [D.with_projections(c) for c in D.pigeonhole_cases(rng.fork('ph'), 'ph', res.tier == 'thorough', sizes=None if res.tier == 'thorough' else [('dense', 1024), ('random', 1000)])]
     correspondence(res, cases, proj_nk, D.judge_c18, 'endpoint isolation')
-    res.cov['rule'] = 'histories as in C17 over 2-4 endpoints (incl. same device/other stream) plus endpoint pairs that collide under xor/or/add/truncation foldings of (device, stream); the same decoder run is repeated per endpoint on the projection of the history to that endpoint\'s frames (fresh decoder each); judge: packets delivered for e in the interleaved run == packets of the projected run, on the implementation. non-trivial = distinct frames >= 24 bytes'
+    res.cov['rule'] = 'histories as in C17 over 2-4 endpoints (incl. same device/other stream) plus endpoint pairs that collide under xor/or/add/truncation foldings of (device, stream); the same decoder run is repeated per endpoint on the projection of the history to that endpoint\'s frames (fresh decoder each); pigeonhole histories (1000-1024 endpoints pending at once, half released, survivors aborted + stray continuation or completed); judge: packets delivered for e in the interleaved run == packets of the projected run, on the implementation. non-trivial = distinct frames >= 24 bytes'
     res.cov['distinct_nontrivial'] = nontrivial_frames(cases)
     res.cov['input_distribution'] = frame_stats(cases)
     res.cov['samples'] = [sample_case(c) for c in cases[:2]]
